@@ -90,7 +90,13 @@ def eval_prog(prog):
         return out
 
     execu = prog.get("executable", True)
-    if execu and prog.get("combined"):
+    # one build for both versions is the cheap path; but in one module the specialised copies share the
+    # compilation (definitions they load first are already compiled when the generic version needs them), so
+    # every third program is judged on two separate modules
+    import zlib
+
+    separate = zlib.crc32(prog["generic"].encode()) % 3 == 0
+    if execu and prog.get("combined") and not separate:
         out = run(prog["combined"], True)
         if out.kind == "ok":
             g, s = split_stream(out.stream)
@@ -124,7 +130,7 @@ def eval_prog(prog):
         tag = (a or b)[0]
         return "mismatch", f"prog.stream:{_tag_fn(tag, prog)}", (
             f"result #{i}: generic {a} vs specialised {b} (lengths {len(go.stream)}/{len(so.stream)})")
-    if execu and prog.get("combined"):
+    if execu and prog.get("combined") and not separate:
         # separately fine but the combined module was not: report what the combined run did
         out = run(prog["combined"], True)
         if out.kind == "unsupported":
